@@ -20,7 +20,10 @@ type jDecl struct {
 	Prio    bool   `json:"prio"`
 }
 
-func implWrite(ds []jDecl) (out string, panicked any) {
+// implWrite assembles the list, then assembles the caller's very same slice a second time (a
+// generator's list is assembled again after more declarations are appended, or by a second target):
+// again = the text of the second assembly.
+func implWrite(ds []jDecl) (out string, again string, panicked any) {
 	defer func() {
 		if e := recover(); e != nil {
 			panicked = fmt.Sprint(e)
@@ -30,7 +33,9 @@ func implWrite(ds []jDecl) (out string, panicked any) {
 	for i, d := range ds {
 		in[i] = generator.Declaration{ID: d.ID, Content: d.Content, Priority: d.Prio}
 	}
-	return generator.WriteDeclarations(in), nil
+	out = generator.WriteDeclarations(in)
+	again = generator.WriteDeclarations(in)
+	return out, again, nil
 }
 
 func multisetKey(ds []jDecl) string {
@@ -55,7 +60,7 @@ func runC19(r *rep.Report, thorough bool) error {
 		if ds == nil {
 			ds = []jDecl{}
 		}
-		implOut, pan := implWrite(append([]jDecl(nil), ds...))
+		implOut, implAgain, pan := implWrite(append([]jDecl(nil), ds...))
 		reply, err := d.Call(map[string]any{"op": "c19.write", "decls": ds})
 		if err != nil {
 			return err
@@ -75,6 +80,9 @@ func runC19(r *rep.Report, thorough bool) error {
 		if pan != nil {
 			r.Fail(rep.Failure{Signature: "c19:panic", What: "WriteDeclarations panicked", Input: ds, Observed: pan})
 			return nil
+		}
+		if pan == nil && consistent && implAgain != implOut {
+			r.Fail(rep.Failure{Signature: "c19:depends-on-an-earlier-assembly", What: "assembling the same slice of declarations a second time gives another text: the first call altered the caller's list", Input: ds, Expected: implOut, Observed: implAgain})
 		}
 		if consistent {
 			r.Hist("consistent")
